@@ -86,7 +86,7 @@ class ModelParamDefinitions(Mapping):
     def add(self, name, description):
         self.store[name] = ModelParamDefinition(name, description)
 
-    def check_params(self, source, **kwargs):
+    def check_params(self, source, /, **kwargs):
         for k in kwargs:
             if k not in self.store:
                 raise TextXError(f"unknown parameter {k} ({source})")
